@@ -159,6 +159,14 @@ namespace occa {
           smnt = smnt->up;
         }
 
+        // @exclusive declared outside of every @outer loop (e.g. at file scope)
+        if (!innerMostOuterLoop) {
+          declSmnt.printError("Must define [@exclusive] variables between"
+                              " [@outer] and [@inner] loops");
+          success = false;
+          return;
+        }
+
         // Check if index variable exists and is valid
         if (innerMostOuterLoop->hasDirectlyInScope(exclusiveIndexName)) {
           keyword_t &keyword = innerMostOuterLoop->getScopeKeyword(exclusiveIndexName);
@@ -312,6 +320,13 @@ namespace occa {
             outerMostOuterLoop = (forStatement*) smnt;
           }
           smnt = smnt->up;
+        }
+
+        if (!outerMostOuterLoop) {
+          declSmnt.printError("Must define [@exclusive] variables between"
+                              " [@outer] and [@inner] loops");
+          success = false;
+          return;
         }
 
         // Check if outer loop has max_inner_dims set
